@@ -485,7 +485,51 @@ func run(id, tier string) int {
 		}
 		wg.Wait()
 	}
+	if id == "C05" && tier == "thorough" {
+		fuzzStage(st, "plain", nil, 4*time.Minute)
+		fuzzStage(st, "checkptr", []string{"-gcflags=all=-d=checkptr"}, 3*time.Minute)
+	}
 	return report(id, tier, seed, &po, st, t0, evPath)
+}
+
+// fuzzStage runs go's coverage-guided fuzzer over the C05 monitor
+// (fuzzc05/fuzz_test.go) as an additional workload generator.
+func fuzzStage(st *shardState, build string, flags []string, d time.Duration) {
+	cache := filepath.Join(workDir(), "fuzzcache-"+build)
+	os.MkdirAll(cache, 0o755)
+	args := append([]string{"test", "-tags", "verif"}, flags...)
+	args = append(args, "-run", "^$", "-fuzz=FuzzDecode", "-fuzztime="+d.String(), "-test.fuzzcachedir="+cache, ".")
+	cmd := exec.Command("go", args...)
+	cmd.Dir = filepath.Join(root, "fuzzc05")
+	cmd.Env = goEnv()
+	out, err := cmd.CombinedOutput()
+	text := string(out)
+	execs := int64(0)
+	for _, l := range strings.Split(text, "\n") {
+		if i := strings.Index(l, "execs: "); i >= 0 {
+			var n int64
+			fmt.Sscanf(l[i+7:], "%d", &n)
+			if n > execs {
+				execs = n
+			}
+		}
+	}
+	st.mu.Lock()
+	defer st.mu.Unlock()
+	st.counts["fuzz_execs_"+build] += execs
+	st.evals += int(execs)
+	if err != nil || strings.Contains(text, "FAIL") {
+		msg := tail(text, 3000)
+		// keep the failing input next to the replays
+		if i := strings.Index(text, "Failing input written to "); i >= 0 {
+			f := strings.Fields(text[i+len("Failing input written to "):])[0]
+			if b, rerr := os.ReadFile(filepath.Join(root, "fuzzc05", f)); rerr == nil {
+				msg += "\n--- failing input file ---\n" + string(b)
+				os.RemoveAll(filepath.Join(root, "fuzzc05", "testdata"))
+			}
+		}
+		st.viols = append(st.viols, violation{Build: "fuzz-" + build, Idx: -1, Oracle: "fuzz", Sig: "C05/fuzz/" + classifyFatal(text), Msg: msg})
+	}
 }
 
 func report(id, tier string, seed uint64, po *planOut, st *shardState, t0 time.Time, evPath string) int {
